@@ -67,7 +67,6 @@ func runC16(c *Ctx) {
 	c.floor("DI.COUNTER", 1)
 	s.ruleConsume("DL.CONSUME")
 	c.floor("DL.CONSUME", 3)
-	s.ruleDR("DR")
-	c.floor("DR.SHORT", 1)
-	c.floor("DR.LINE", 0)
+	// (DR.SHORT / DR.LINE belong to the round-trip property C15: a short read or
+	// a split line mis-decodes but neither panics, spins nor over-allocates)
 }
